@@ -42,7 +42,11 @@ func Parse(str string) (Selector, error) {
 
 	col := 0
 	var sel Selector
-	for _, tok := range tokenize(str) {
+	toks, err := tokenize(str)
+	if err != nil {
+		return nil, err
+	}
+	for _, tok := range toks {
 		seg := tok
 		opt := strings.HasSuffix(tok, "?")
 		if opt {
@@ -133,7 +137,7 @@ func MustParse(sel string) Selector {
 	return s
 }
 
-func tokenize(str string) []string {
+func tokenize(str string) ([]string, error) {
 	var toks []string
 	col := 0
 	ofs := 0
@@ -166,11 +170,14 @@ func tokenize(str string) []string {
 		col++
 	}
 
-	if ofs < col && ctx != "\"" {
+	if ctx == "\"" {
+		return nil, newParseError("unterminated quoted string", str, ofs, str[ofs:])
+	}
+	if ofs < col {
 		toks = append(toks, str[ofs:col])
 	}
 
-	return toks
+	return toks, nil
 }
 
 type parseerr struct {
